@@ -210,6 +210,12 @@ fn parse_field(base_data_size: usize, field: &Field) -> Result<FieldDefinition> 
                                     "bitfield!: bit requires an inclusive range, for examples bits(10..=19). bit(10) allows specifying a single bit",
                                 ));
                             }
+                            if upper < lower {
+                                return Err(Error::new_spanned(
+                                    &range_span,
+                                    format!("bitfield!: Invalid bit-range {lower}..={upper}: the upper limit is smaller than the lower limit"),
+                                ));
+                            }
                             ranges.push(Range {
                                 start: lower,
                                 end: upper + 1,
